@@ -32,7 +32,7 @@ def check(run):
     r = gen.rng_for(run.seed, "c16")
     for i in range(3000 if thorough else 500):
         specs.append(strgen.build(r, "R%d" % i, ["EnumString"], fieldless=True, naming_bias=0.75, max_n=8,
-                                  capture_types=["String", "BoxStr"]))
+                                  capture_types=["String", "BoxStr"], n=(60 if i in (2, 3) else None)))
     for i, sp in enumerate(specs):
         if i % 7 == 6 and sp.name.startswith("R"):
             strgen.add_overlap(r, sp)      # inputs claimed by two variants are not judged; all others must agree in both twins
